@@ -15,20 +15,23 @@ type decision struct {
 }
 
 type Path struct {
-	prefix  []decision
-	pos     int
-	taken   []decision
-	pc      []*Term
-	known   map[int]bool // term id -> truth value implied by pc (syntactic)
-	nondets []*Term
-	ndNames []string // harness-level names
-	ndSet   map[string]bool
-	forks   [][]decision
-	reached map[string]bool
-	observe []string
-	strlits map[string]*Term
-	model   map[string]uint64 // a model of pc (nil: none known)
-	evalc   *evalCtx
+	prefix   []decision
+	pos      int
+	taken    []decision
+	pc       []*Term
+	known    map[int]bool // term id -> truth value implied by pc (syntactic)
+	nondets  []*Term
+	ndNames  []string // harness-level names
+	ndSet    map[string]bool
+	forks    [][]decision
+	reached  map[string]bool
+	observe  []string
+	strlits  map[string]*Term
+	model    map[string]uint64 // a model of pc (nil: none known)
+	evalc    *evalCtx
+	subst    map[string]*Term // variables fixed by the path condition
+	simpMemo map[int]*Term
+	simpVer  int
 }
 
 type Obligation struct {
@@ -60,6 +63,7 @@ type runHooks struct {
 }
 
 func (ex *Exec) assume(c *Term) {
+	c = ex.simp(c)
 	if c.IsConst() {
 		if !c.cBool() {
 			panic(pathEnd{"assumption false"})
@@ -95,6 +99,7 @@ func (ex *Exec) addPC(c *Term) {
 	}
 	p.pc = append(p.pc, c)
 	ex.noteKnown(c, true)
+	ex.learnEq(c)
 	ex.sol.Assert(c)
 }
 
@@ -120,6 +125,10 @@ func (ex *Exec) noteKnown(c *Term, v bool) {
 
 // branch decides a symbolic condition on the current path, forking the other side when feasible.
 func (ex *Exec) branch(c *Term, pos token.Pos, fr *frame) bool {
+	if c.IsConst() {
+		return c.cBool()
+	}
+	c = ex.simp(c)
 	if c.IsConst() {
 		return c.cBool()
 	}
@@ -194,9 +203,10 @@ func (ex *Exec) branch(c *Term, pos token.Pos, fr *frame) bool {
 
 // concretize enumerates the feasible values of t (one path per value).
 func (ex *Exec) concretize(t *Term, lo, hi int64, what string, pos token.Pos, fr *frame) int64 {
-	if v, ok := termConstInt(t); ok {
+	if v, ok := ex.constInt(t); ok {
 		return v
 	}
+	t = ex.simp(t)
 	p := ex.path
 	ts := ex.ts
 	w := int(t.Sort.W)
@@ -285,6 +295,10 @@ func (ex *Exec) assertObl(c *Term, id string, kf string, region *Term) {
 func (ex *Exec) assertOblN(c *Term, id string, kfs []string, regions []*Term) {
 	h := ex.hooks
 	ts := ex.ts
+	c = ex.simp(c)
+	for i := range regions {
+		regions[i] = ex.simp(regions[i])
+	}
 	ob := Obligation{ID: id, PathNo: h.pathNo}
 	for i, kf := range kfs {
 		if !h.kfOpen[kf] {
